@@ -23,6 +23,7 @@ fn main() {
     let mut seed: u64 = std::env::var("VERIF_SEED").ok().and_then(|s| s.trim().parse::<i64>().ok()).map(|x| x as u64).unwrap_or(1);
     let mut replay: Option<String> = None;
     let mut regress = true;
+    let mut audit = false;
     let mut i = 1;
     while i < args.len() {
         match args[i].as_str() {
@@ -43,6 +44,7 @@ fn main() {
                 replay = Some(args.get(i).cloned().unwrap_or_else(|| usage()));
             }
             "--no-regress" => regress = false,
+            "--audit-regress" => audit = true,
             "--from-artifact" => {
                 // vcheck <ID> --from-artifact <target> <file>: convert a libFuzzer artifact into a replay file and replay it
                 let target = args.get(i + 1).cloned().unwrap_or_else(|| usage());
@@ -90,6 +92,21 @@ fn main() {
             std::process::exit(2);
         }
         std::process::exit(eng.finish());
+    }
+    if audit {
+        // does every committed regress tape still decode into the case it was saved for?
+        for (path, section, tape, index) in eng.regress_files() {
+            let stored = std::fs::read_to_string(&path).ok().and_then(|t| serde_json::from_str::<serde_json::Value>(&t).ok()).and_then(|v| v["case"].as_str().map(|s| s.to_string())).unwrap_or_default();
+            eng.audit_case = Some(stored);
+            eng.replay_only = true;
+            eng.quiet = true;
+            eng.mode = Mode::Replay { section, tape, index, path };
+            run(&mut eng);
+        }
+        for (p, same) in &eng.audit_out {
+            println!("{} {}", if *same { "CURRENT" } else { "STALE  " }, p);
+        }
+        std::process::exit(0);
     }
     if regress {
         for (path, section, tape, index) in eng.regress_files() {
